@@ -182,6 +182,22 @@ func c06Unpack(pf erpc.ProtoFunc, b []byte, chunk, cseed int) (class string, con
 	return class, rd.pos, ms1.TotalAlloc - ms0.TotalAlloc, rd.MaxAsk
 }
 
+// c06UnpackStable is c06Unpack with the allocation figure made robust: MemStats.TotalAlloc is
+// process-wide (other goroutines, one-time lazy initialisation inside a library), so when a run is
+// above the budget it is repeated and the smallest figure counts — what Unpack itself allocates
+// for this input is the same on every run, the noise is not.
+func c06UnpackStable(pf erpc.ProtoFunc, b []byte, chunk, cseed int, budget uint64) (class string, consumed int, allocDelta uint64, maxAsk int) {
+	class, consumed, allocDelta, maxAsk = c06Unpack(pf, b, chunk, cseed)
+	for i := 0; i < 4 && allocDelta > budget; i++ {
+		runtime.Gosched()
+		_, _, a, _ := c06Unpack(pf, b, chunk, cseed)
+		if a < allocDelta {
+			allocDelta = a
+		}
+	}
+	return
+}
+
 func c06Run(line string, out *hx.Out) (string, bool) {
 	kind, f := hx.Fields(line)
 	limit, _ := strconv.Atoi(f["limit"])
@@ -194,7 +210,7 @@ func c06Run(line string, out *hx.Out) (string, bool) {
 	budget := uint64(limit)*3 + uint64(len(b))*8 + 64<<10
 	switch kind {
 	case "c06unpack":
-		class, consumed, alloc, maxAsk := c06Unpack(socket.RawProtoFunc, b, chunk, cseed)
+		class, consumed, alloc, maxAsk := c06UnpackStable(socket.RawProtoFunc, b, chunk, cseed, budget)
 		out.Count("c06unpack:" + class)
 		bounded := 1
 		if maxAsk > limit && maxAsk > 4 {
@@ -214,7 +230,7 @@ func c06Run(line string, out *hx.Out) (string, bool) {
 		return fmt.Sprintf("%s%s consumed=%d bounded=%d", class, rest, consumed, bounded), len(b) > 4
 	case "xproto":
 		proto := f["proto"]
-		class, consumed, alloc, maxAsk := c06Unpack(c06ProtoFunc(proto), b, chunk, cseed)
+		class, consumed, alloc, maxAsk := c06UnpackStable(c06ProtoFunc(proto), b, chunk, cseed, budget)
 		out.Count("xproto:" + proto + ":" + class)
 		if alloc > budget {
 			out.Violate(line, "alloc-bounded", fmt.Sprintf("%s Unpack allocated %d bytes for a %d-byte input with read limit %d", proto, alloc, len(b), limit), "c06:"+proto+":overalloc")
